@@ -10,9 +10,10 @@ from vlib import cz, clist, cbool
 OVERLAY = {"core/syncx/verif_hooks.go": "/verif/harness/overlay/syncx/verif_hooks.go",
            "core/collection/zz_verif_c07.go": "/verif/harness/overlay/collection/zz_verif_c07.go"}
 
-KIND = {0: "GSF", 1: "GLC", 2: "GRM", 3: "GSF", 4: "GSF", 5: "GSF", 6: "GSF", 7: "GSF", 8: "GSF", 9: "GSF", 10: "GSF"}
+KIND = {0: "GSF", 1: "GLC", 2: "GRM", 3: "GSF", 4: "GSF", 5: "GSF", 6: "GSF", 7: "GSF", 8: "GSF", 9: "GSF", 10: "GSF", 11: "GSF"}
 KNAME = {0: "sf.DoEx", 1: "lc.Do", 2: "rm.Get", 3: "sf.Do", 4: "collection.Cache.Take", 5: "cachenode.Take",
-         6: "collection.Cache.Del", 7: "cachenode.Del", 8: "cachenode.TakeWithExpire", 9: "cachenode.storefault", 10: "cachenode.corrupt-entry"}
+         6: "collection.Cache.Del", 7: "cachenode.Del", 8: "cachenode.TakeWithExpire", 9: "cachenode.storefault", 10: "cachenode.corrupt-entry",
+         11: "sf.Forget-if-any"}
 EK = {"inv": 0, "fs": 1, "fe": 2, "ret": 3, "del": 5, "fault": 6, "ctxdone": 7}
 CANCELED, DEADLINE, WCANCELED, WDEADLINE = 30, 31, 32, 33   # context.Canceled / DeadlineExceeded as outcomes, bare and %w-wrapped
 # the caller's own context (5th component of a cache node Take op)
@@ -29,7 +30,7 @@ INST = 1000     # key // INST = instance of the primitive / cache (two instances
 
 
 def is_cache(case):
-    return any(o[0] >= 4 for sc in case.get("scripts", []) for o in sc)
+    return any(4 <= o[0] <= 10 for sc in case.get("scripts", []) for o in sc)
 
 
 def is_node(case):
@@ -231,10 +232,43 @@ class C07(Property):
         cs.append({"scripts": self._uniq(self._mk_scripts([chain, [(1, 900, 0)]])), "sched": [1] + [0] * 60, "logonly": True})
         return cs
 
+    def _invalidation_cases(self):
+        """A key is invalidated WHILE a load of it is in flight (collection.Cache.Del, cache node Del; for the primitive: a
+        Forget(key) method if the SingleFlight has one - today it has not and the op does nothing), and further callers
+        arrive before / after the invalidation, before / after the first load returns, while a second load runs.  Whatever
+        the invalidation is meant to do to the entry, the barrier still has to keep executions of one key apart and to hand
+        out results of overlapping executions only (seeded C07-5: a 'forgotten' call is replaced in the map by its
+        successor, the old call's clean-up then deletes the successor's entry: two loads at once).  Six fixed schedules per
+        call site + a fixed sample (own generator, not VERIF_SEED) of all orders."""
+        import random
+        rng = random.Random(707)
+        cs = []
+        for take, dele, nsample in ((4, 6, 30), (5, 7, 12), (8, 7, 12), (0, 11, 20), (3, 11, 10)):
+            g = 2 if take == 4 else 1           # gate-level steps from the call gate into the function (or to the block)
+            A, D, C, E, F = 0, 1, 2, 3, 4
+            scr = [[(take, 1, 0)], [(dele, 1, 0), (dele, 1, 0)], [(take, 1, 0)], [(take, 1, 0)], [(take, 1, 0), (take, 1, 0)]]
+            scheds = [
+                [A] * g + [D] + [C] * g + [A] + [E] * g + [F] * g,                 # the demonstration of C07-5
+                [A] * g + [C] * g + [D] + [E] * g + [A] + [F] * g,                 # a joiner from before the invalidation
+                [A] * g + [D] + [A] + [C] * g + [E] * g + [C] + [F] * g,           # nobody arrives before the load ends
+                [D] + [A] * g + [C] * g + [A] + [E] * g,                           # invalidation of nothing
+                [A] * g + [D] + [C] * g + [E] * g + [A] + [F] * g + [C, E],        # two successors waiting
+                [A] * g + [D] + [C] * g + [D] + [A] + [E] * g + [F] * g,           # invalidated twice
+            ]
+            for sch in scheds:
+                cs.append({"scripts": self._mk_scripts(scr), "sched": sch, "logonly": True})
+            pool = [A] * (g + 1) + [D] * 2 + [C] * (g + 1) + [E] * (g + 1) + [F] * (2 * g + 2)
+            for _ in range(nsample):
+                sch = [A] * g + rng.sample(pool, len(pool))
+                errs = [rng.choice([0, 0, 0, 2]) for _ in range(5)]
+                sc2 = [[(o[0], o[1], (errs[t] if o[0] == take else 0)) for o in sc] for t, sc in enumerate(scr)]
+                cs.append({"scripts": self._mk_scripts(sc2), "sched": sch, "logonly": True})
+        return cs
+
     def corpus(self):
         wake, many = self._wake_order_cases(), self._many_keys_cases()
         # (the big many-keys terms are spread over the first shards of the Coq evaluation)
-        cs = many[:1] + wake[:64] + many[1:4] + wake[64:] + many[4:]
+        cs = many[:1] + wake[:64] + many[1:4] + wake[64:] + many[4:] + self._invalidation_cases()
         # leader, joiner, late caller after completion (must start a new execution)
         cs.append({"scripts": self._mk_scripts([[(0, 1, 0)], [(0, 1, 0)], [(0, 1, 0)]]), "sched": [0, 1, 0, 2, 2]})
         # same thread calls twice: the second call must not see the first result
@@ -484,8 +518,10 @@ class C07(Property):
         # controller loop (one step = a few scheduler round trips), so the wall time is what the chunks take side by side
         import concurrent.futures
         n = len(cases)
-        size = min(2000, max(40, -(-n // 3)))
-        chunks = [cases[i:i + size] for i in range(0, n, size)]
+        k = max(3, -(-n // 2000))
+        if n < 120:
+            k = 1
+        chunks = [cases[j::k] for j in range(k)]      # round robin: the fixed families (first) are spread over the processes
 
         def run(ix):
             chunk = chunks[ix]
@@ -499,7 +535,9 @@ class C07(Property):
 
         with concurrent.futures.ThreadPoolExecutor(max_workers=3) as ex:
             parts = list(ex.map(run, range(len(chunks))))
-        res = [r for p in parts for r in p]
+        res = [None] * n
+        for j, p in enumerate(parts):
+            res[j::k] = p
         return [self._digest(c, r) for c, r in zip(cases, res)]
 
     @staticmethod
@@ -602,7 +640,7 @@ class C07(Property):
         fs.append("keys=%d" % len(set(o[1] % INST for sc in case["scripts"] for o in sc)))
         if any(o[1] >= INST for sc in case["scripts"] for o in sc):
             fs.append("two_instances")
-        if any(o[3] == PANIC and o[0] not in (6, 7, 9, 10) for sc in case["scripts"] for o in sc):
+        if any(o[3] == PANIC and o[0] not in (6, 7, 9, 10, 11) for sc in case["scripts"] for o in sc):
             fs.append("has_panicking_fn")
         if any(o[3] == GOEXIT for sc in case["scripts"] for o in sc):
             fs.append("has_goexit_fn")
